@@ -24,11 +24,18 @@ Step == l' = l + 1 /\ c' = c
 
 TraceInit == \E i \in 1..Len(Conns) : c = i /\ l = 1 /\ seen = 0 /\ Init0(Conns[i].script)
 
-\* Representative read sizes: what matters about a read is where `taken` lands relative to the
-\* request boundaries, so it is enough to try the largest read and landings on / just after each boundary.
+\* Reads between two logged events are collapsed into one landing of `taken`.  A sequence of reads (each of any
+\* size >= 1, each at most the reader's capacity, the last one starting before the byte the parser still needs)
+\* can end anywhere up to Reach; what matters about the landing is where it lies relative to the request
+\* boundaries, so the furthest landing and the landings on / just after each boundary are tried.
 Bounds == UNION { { Start(script, i), Start(script, i) + script[i].hl, End(script, i) } : i \in { j \in 1..Len(script) : IsReq(script[j]) } }
-FillSizes == LET lim == sent - taken IN
-             { k \in ({lim, BufCap} \cup { b - taken : b \in Bounds } \cup { b + 1 - taken : b \in Bounds }) : k >= 1 /\ k <= lim }
+NeedNow == IF spc = "head" THEN HeadNeed ELSE ReqEnd
+Reach == Max(taken, NeedNow - 1) + BufCap
+Landings == { L \in ({Min(sent, Reach)} \cup Bounds \cup { b + 1 : b \in Bounds }) : L > taken /\ L <= sent /\ L <= Reach }
+Srv_FillTo(L) ==
+  /\ open /\ spc \in {"head", "body"} /\ taken < sent /\ taken < NeedNow
+  /\ taken' = L
+  /\ UNCHANGED <<script, sent, idling, idles, cliShut, pos, cur, spc, open, out>>
 
 \* Partial-order reduction: Send, IdleBegin and Shut are enabled by the client alone and only ever enable
 \* more server behaviour (a read may always take fewer bytes than have arrived), so they are consumed
@@ -36,7 +43,7 @@ FillSizes == LET lim == sent - taken IN
 ClientOnlyNext == Is("Send") \/ Is("IdleBegin") \/ Is("Shut")
 Silent == /\ ~ClientOnlyNext
           /\ \/ Srv_ReadFirst \/ Srv_Eof \/ Srv_Timeout408
-             \/ \E k \in FillSizes : Srv_Fill(k)
+             \/ \E L \in Landings : Srv_FillTo(L)
              \/ Srv_HeadDone \/ Srv_BodyDone \/ Srv_Respond400 \/ Srv_Dispatch \/ Srv_Write
              \/ Srv_Desync400 \/ Srv_Desync408
           /\ UNCHANGED tvars
